@@ -1,3 +1,18 @@
+//! vh-graphql: C36 (off-chain indexes), C37 (coins to spend), C38 (cursor pagination)
+//! on the real `fuel-core` GraphQL-side code.
+mod c36;
+mod c37;
+mod c38;
+mod common;
+
+use mcx::*;
+
 fn main() {
-    mcx::machinery_failure("not built yet");
+    let cli = Cli::parse();
+    match cli.property.as_str() {
+        "C36" => c36::main(&cli),
+        "C37" => c37::main(&cli),
+        "C38" => c38::main(&cli),
+        other => machinery_failure(&format!("vh-graphql does not serve {other}")),
+    }
 }
